@@ -19,7 +19,8 @@ EXPLANATION = (
     "sends iff reply_ack_enabled and NEED_REPLY, with value 0 iff the handler succeeded, and returns the handler's "
     "result; reply_ack_enabled is recomputed as (offered virtio & PROTOCOL_FEATURES != 0) && (acked protocol & "
     "REPLY_ACK != 0) after every change of its inputs; the reply header echoes the request code with REPLY only "
-    "and the exact payload size; the server reads the header once and exactly hdr.size body bytes.")
+    "and the exact payload size; the server reads the header once and exactly hdr.size body bytes."
+    ' Also: (P5) decided on the header value the constructor returns (flags exactly 0x5, code from the request, size = size_of body + payload); (P9) the payload length given to the reply-header constructor is the length of the payload sent with that header; (P7, P8) C20/X2 for headers, C03/R1-R2.')
 NOT_DECIDED = ("'the k-th reply answers the k-th request' as a trace property: it follows from one request -> at most one "
                "send on every path only by a manual induction over the session.")
 
